@@ -111,13 +111,26 @@ theorem C18_schema {DT : Type} (E : Env DT) (b : Nat) (ops : List (Op DT))
   exact covered_foldl (writesOf E ops) [] w hw
 
 /-- When does SQLite accept every DDL statement of a history (the hypothesis `accepted` above)? Whenever the field
-    names occurring in it — reserved fields included — are pairwise different up to ASCII case and no descriptor
-    repeats a field name. (The complement is the recorded finding: `a` and `A` in one type are refused.) -/
+    names occurring in it — reserved fields included — are pairwise different up to ASCII case, no descriptor
+    repeats a field name, and no type name begins with `sqlite_` (any case), the prefix SQLite reserves for its own
+    tables. (The complement is two recorded findings: `a` and `A` in one type are refused, and so is a record type
+    called `sqlite_x/y` — see `C18_reserved_prefix_refused`.) -/
 theorem C18_accepted_of_case_distinct_fields {DT : Type} (E : Env DT) (ops : List (Op DT)) (U : List Text)
     (hU : ∀ a ∈ U, ∀ b ∈ U, sameIdent a b = true → a = b)
-    (hfields : ∀ w ∈ writesOf E ops, (w.1.fields.map (·.1)).Nodup ∧ ∀ f ∈ w.1.fields, f.1 ∈ U) :
+    (hfields : ∀ w ∈ writesOf E ops, (w.1.fields.map (·.1)).Nodup ∧ ∀ f ∈ w.1.fields, f.1 ∈ U)
+    (hnames : ∀ w ∈ writesOf E ops, reservedName w.1.name = false) :
     accepted E.store [] (writesOf E ops) = true :=
-  accepted_of_caseDistinct U hU E.store (writesOf E ops) [] (by intro t ht; cases ht) hfields
+  accepted_of_caseDistinct U hU E.store (writesOf E ops) [] (by intro t ht; cases ht) hfields hnames
+
+/-- Recorded finding: a record type whose name begins with `sqlite_` (ASCII-case-insensitively) — a valid record type
+    name — is refused by every writer state, whatever else the history holds: the first write of such a type is an
+    OperationalError. -/
+theorem C18_reserved_prefix_refused {DT : Type} (E : Env DT) (s : St) (d : Desc) (vals : List (PyVal DT))
+    (hopen : s.isOpen = true) (hnew : s.seen.contains d = false) (hres : reservedName d.name = true) :
+    (apply E s (.write d vals)).2 = .refused .ddl := by
+  have hk : ddlOk s.work d = false := by simp [ddlOk, hres]
+  have hnew' : d ∉ s.seen := by simpa using hnew
+  simp [apply, step, hopen, hnew', hk]
 
 /-- Quoting: for every name over the character set of valid type/field names (ASCII letters, digits, `_`, `/`) the
     identifier as embedded in the SQL text (`"name"`) is read back by the SQL lexer as exactly that name, and the rest
@@ -312,5 +325,10 @@ example : ((run E (init 7) hist).committed.map (fun t => (t.name, colNames t))) 
 -- a history SQLite refuses (columns `a` and `A`) does not meet `accepted`
 example : accepted E.store [] (writesOf E [Op.write { name := [116], fields := [([97], "string"), ([65], "string")] }
     [.none, .none]]) = false := by decide
+-- the reserved prefix: `SQLite_x` is refused, `sqlite/page` and `sqlitex` are ordinary names
+example : reservedName [83, 81, 76, 105, 116, 101, 95, 120] = true := by decide
+example : reservedName [115, 113, 108, 105, 116, 101, 47, 112] = false := by decide
+example : accepted E.store [] (writesOf E [Op.write { name := [115, 113, 108, 105, 116, 101, 95, 120], fields := [([97], "string")] }
+    [.none]]) = false := by decide
 example : SqliteLaws affinityStore := affinityStore_laws
 end C18_nonvacuous
